@@ -216,6 +216,17 @@ def setDelegateTy : Ty → Option Ty
 
 def emitTy (t : Ty) (a : Ty) : Option Ty := if a = t then some .operation else none
 
+/-- the packable types of the model: the plain data classes (numbers, strings, bytes, unit, bool and pairs / options /
+unions / lists / sets / maps of them); addresses, keys, lambdas, contract handles have a packed form too, but it needs
+Base58 decoding / code serialization: outside the model -/
+def packable : Ty → Bool
+  | .unit | .bool | .int | .nat | .mutez | .timestamp | .string | .bytes => true
+  | .option t | .list t | .set t => packable t
+  | .or a b | .pair a b | .map a b => packable a && packable b
+  | _ => false
+
+def packTy (a : Ty) : Option Ty := if packable a then some .bytes else none
+
 /-- extension 2, the rules of the form `i :: a : S ⇒ r : S`: result type for the operand type -/
 def unTy (i : Instr) (a : Ty) : Option Ty :=
   match i with
@@ -228,6 +239,7 @@ def unTy (i : Instr) (a : Ty) : Option Ty :=
   | .CONTRACT t _ => contractTy t a
   | .SET_DELEGATE => setDelegateTy a
   | .EMIT _ t => emitTy t a
+  | .PACK => packTy a
   | _ => none
 
 /-- TRANSFER_TOKENS: `p : mutez : contract p : S ⇒ operation : S` -/
